@@ -200,7 +200,8 @@ reg("C10", "threads", "history monitor on the five real executor classes with in
     "notes done_job / reject_job.  One preemption is placed at every executed statement line of the monitor-side and "
     "submit-side methods while the other side acts, plus chained-submission stress with seeded yields.  Oracle: each "
     "submitted job reported exactly once, no reject_job(None, ...); a lost job is decided structurally (submit returned, job "
-    "still pending, no monitor thread alive).",
+    "still pending, and either no monitor thread alive, or the job sits in a stage - arrayer, Glue queue - whose consumer "
+    "thread is dead while the monitor completed 60 further polls).",
     "Line-granular preemption; API failures not injected; jobs are not terminal before registration finished.")
 
 reg("C11", "threads", "history monitor on the real JobArrayer and its monitor thread under sys.monitoring-driven preemption",
